@@ -352,6 +352,7 @@ void thread_body(Exec& ex, Db& db, int t, const std::vector<OpSpec>& prog, bool 
 struct Switch {
   long pos;
   int thread;
+  bool free = false;  // taken where the running thread had just finished: not a preemption
 };
 
 struct StepRec {
@@ -822,15 +823,21 @@ int main(int argc, char** argv) {
         std::vector<StepRec> st;
         run_one(sw, nullptr, evs, st);
         emit(evs, sw);
-        const int used = static_cast<int>(sw.size()) - 1;
-        if (used >= pb) continue;
+        int used = -1;  // the initial choice is not a preemption
+        for (const auto& x : sw)
+          if (!x.free) ++used;
         const long from = sw.back().pos + 1;
         for (long i = from; i < static_cast<long>(st.size()); ++i) {
+          // where the thread that ran before has finished, the choice of who continues costs nothing (otherwise
+          // the explored set would depend on the order in which the scenario lists its threads)
+          const bool after_exit =
+              i > 0 && !(st[static_cast<std::size_t>(i)].alive & (1U << st[static_cast<std::size_t>(i - 1)].ran));
+          if (!after_exit && used >= pb) continue;
           for (int t = 0; t < n; ++t) {
             if (t == st[static_cast<std::size_t>(i)].ran) continue;
             if (!(st[static_cast<std::size_t>(i)].alive & (1U << t))) continue;
             auto child = sw;
-            child.push_back({i, t});
+            child.push_back({i, t, after_exit});
             work.push_back(std::move(child));
           }
         }
